@@ -257,15 +257,19 @@ class C28(core.Check):
         return self._dev
 
     def hist_steps(self, case):
+        """probe (open before the file exists), create, reopen, list, rename, reopen, list, kill, reopen (fails),
+        re-create under another capitalisation, probe the first name again, rename back: every name is used
+        again after an attempt on it FAILED, so nothing may be left behind by a failed statement."""
         n1, n2 = case['n1'], case['n2']
         c = case['c']
         if case['prog']:
-            return [['SAVE', n1], ['LOAD', c[0]], ['FILES0', []], ['NAME', c[1] + ([] if 46 in c[1] else list(b'.BAS')),
-                                                                  n2 + ([] if 46 in n2 else list(b'.bas'))],
-                    ['MERGE', c[2]], ['FILES', c[3] + ([] if 46 in c[3] else list(b'.*'))],
-                    ['KILL', c[3] + ([] if 46 in c[3] else list(b'.BaS'))], ['LOAD', n2]]
-        return [['OPENO', n1], ['OPENI', c[0]], ['FILES0', []], ['NAME', c[1], n2], ['OPENA', c[2]], ['FILES', c[3]],
-                ['KILL', c[3]], ['OPENI', n2]]
+            def ext(x, e):
+                return x + ([] if 46 in x else list(e))
+            return [['LOAD', c[0]], ['SAVE', n1], ['LOAD', c[0]], ['FILES0', []], ['NAME', ext(c[1], b'.BAS'), ext(n2, b'.bas')],
+                    ['MERGE', c[2]], ['FILES', ext(c[3], b'.*')], ['KILL', ext(c[3], b'.BaS')], ['LOAD', n2],
+                    ['SAVE', c[2]], ['LOAD', c[1]], ['NAME', ext(c[3], b'.bas'), ext(c[0], b'.BAS')]]
+        return [['OPENI', c[0]], ['OPENO', n1], ['OPENI', c[0]], ['FILES0', []], ['NAME', c[1], n2], ['OPENA', c[2]],
+                ['FILES', c[3]], ['KILL', c[3]], ['OPENI', n2], ['OPENO', c[2]], ['OPENI', c[1]], ['NAME', c[3], c[0]]]
 
     def _hist(self, case):
         key = core.sha(case)
@@ -442,7 +446,7 @@ class C28(core.Check):
             # illegal names: creating must fail with Bad file name (64) unless rejected outright
             g1 = f1[:-1] if (f1.endswith(b'.') and b'.' not in f1[:-1]) else f1
             if not case['tree'] and n1 == n1.lstrip() and not ref_legal(ref_norm(g1)):
-                st = details[0]['status']
+                st = details[1]['status']
                 if st[0] == 0:
                     return 'file created under the illegal name %r' % f1
                 if st not in ([1, 64], [1, 53], [1, 52], [1, 76], [1, 75], [1, 68]):
@@ -456,24 +460,37 @@ class C28(core.Check):
         def opened(i):
             ops = [x for x in details[i]['ops'] if x[0] == 5 and not x[3]]
             return ops[-1][2][0][1] if ops else None
-        if details[0]['status'] != [0, 0] or files_after(0) != [h1]:
-            return 'creating %r: status %r, host files %r (expected [%r])' % (f1, details[0]['status'], files_after(0), h1)
-        if details[1]['status'] != [0, 0] or opened(1) != [h1]:
+        if len(details) != 12:
+            return None
+        if details[0]['status'] != [1, 53] or files_after(0) != []:
+            return 'opening %r before it exists gave %r' % (bytes(case['c'][0]), details[0]['status'])
+        if details[1]['status'] != [0, 0] or files_after(1) != [h1]:
+            return ('creating %r (after a failed attempt to open %r): status %r, host files %r (expected [%r])'
+                    % (f1, bytes(case['c'][0]), details[1]['status'], files_after(1), h1))
+        if details[2]['status'] != [0, 0] or opened(2) != [h1]:
             return 'opening %r after creating %r did not open %r' % (bytes(case['c'][0]), f1, h1)
         t, e = (h1.split('.', 1) + [''])[:2]
         entry = (t.ljust(8) + ('.' if e else ' ') + e.ljust(3) + '     ').encode('ascii')
-        if entry not in details[2]['lines']:
+        if entry not in details[3]['lines']:
             return 'FILES does not list %r as %r' % (h1, entry)
-        if details[3]['status'] != [0, 0] or files_after(3) != [h2]:
-            return 'NAME %r AS %r: status %r, host files %r' % (bytes(case['c'][1]), f2, details[3]['status'], files_after(3))
-        if details[4]['status'] != [0, 0] or opened(4) != [h2]:
+        if details[4]['status'] != [0, 0] or files_after(4) != [h2]:
+            return 'NAME %r AS %r: status %r, host files %r' % (bytes(case['c'][1]), f2, details[4]['status'], files_after(4))
+        if details[5]['status'] != [0, 0] or opened(5) != [h2]:
             return 'opening %r after renaming to %r did not open %r' % (bytes(case['c'][2]), f2, h2)
-        if details[5]['status'] != [0, 0] or len(details[5]['lines']) != 1:
+        if details[6]['status'] != [0, 0] or len(details[6]['lines']) != 1:
             return 'FILES %r does not list exactly the renamed file' % bytes(case['c'][3])
-        if details[6]['status'] != [0, 0] or files_after(6) != []:
+        if details[7]['status'] != [0, 0] or files_after(7) != []:
             return 'KILL %r did not remove %r' % (bytes(case['c'][3]), h2)
-        if details[7]['status'] != [1, 53]:
-            return 'opening the killed file gave %r' % details[7]['status']
+        if details[8]['status'] != [1, 53]:
+            return 'opening the killed file gave %r' % details[8]['status']
+        if details[9]['status'] != [0, 0] or files_after(9) != [h2]:
+            return ('creating %r again after KILL and a failed open: status %r, host files %r (expected [%r])'
+                    % (bytes(case['c'][2]), details[9]['status'], files_after(9), h2))
+        if details[10]['status'] != [1, 53]:
+            return 'opening the renamed-away name %r gave %r' % (bytes(case['c'][1]), details[10]['status'])
+        if details[11]['status'] != [0, 0] or files_after(11) != [h1]:
+            return ('NAME %r AS %r after a failed open of the target name: status %r, host files %r (expected [%r])'
+                    % (bytes(case['c'][3]), bytes(case['c'][0]), details[11]['status'], files_after(11), h1))
         return None
 
     def oracle_consist(self, case):
